@@ -16,6 +16,7 @@
 import OpmVerif.Proofs.Peaceman
 import OpmVerif.Proofs.Connections
 import OpmVerif.Proofs.ConnectionsOrder
+import OpmVerif.Proofs.ConnectionsIdentity
 import OpmVerif.Proofs.PeacemanExamples
 
 namespace OpmVerif.Props.C06
@@ -390,5 +391,69 @@ example : (reorder Conns.Ex.fnsInt .TRACK 0 0 Conns.Ex.cs.reverse).map (·.k) = 
     (reorder Conns.Ex.fnsInt .DEPTH 0 0 Conns.Ex.cs.reverse).map (·.k) = [0, 1, 2] := by decide
 
 end lists
+
+/-! ## The Peaceman relation along whole histories -/
+
+/-- For every history — any COMPORD, any number of connections, any sequence of COMPDAT
+records that are regular on the grid (`RegularRec`: the record yields the relation in every
+active cell, which `peaceman_identity` gives whenever the stored values are admissible),
+WPIMULT, WELOPEN, COMPLUMP records and report-step ends — every connection satisfies at the
+end `CF · (ln(r0/rw) + S) = wpimult · 2π · Kh`, `wpimult` being the accumulated WPIMULT factor
+the connection carries (`Connection::wpimult()`, reset to 1 when COMPDAT re-enters the cell). -/
+theorem history_scaled_identity (E : Env ℝ) (hE : RealEnv E) (ops : List (Op ℝ)) (w : WellConns ℝ)
+    (hreg : ∀ r, Op.compdat r ∈ ops → RegularRec E.grid r)
+    (h : ∀ c ∈ w.conns, ScaledIdentity c) :
+    ∀ c ∈ (run E ops w).conns,
+      c.ctf.CF * (Real.log (c.ctf.r0 / c.ctf.rw) + c.ctf.skin) = c.wpimult * (2 * Real.pi * c.ctf.Kh) :=
+  run_scaled E hE ops w hreg h
+
+/-- Non-vacuity: a TRACK-ordered well on a grid of 3 × 4 × 2 cells, COMPDAT over three layers,
+WPIMULT on one layer, COMPDAT again, a global WPIMULT: the record is regular, the empty well
+satisfies the invariant. -/
+example : RealEnv Conns.Ex.envR ∧ (∀ r, Op.compdat r ∈ Conns.Ex.opsR → RegularRec Conns.Ex.envR.grid r) ∧
+    (∀ c ∈ ({ conns := [], pending := none } : WellConns ℝ).conns, ScaledIdentity c) := by
+  refine ⟨⟨rfl, rfl⟩, ?_, by intro c hc; cases hc⟩
+  intro r hr
+  have : r = Conns.Ex.recR := by
+    simp only [Conns.Ex.opsR, List.mem_cons, List.mem_nil_iff, or_false] at hr
+    rcases hr with h | h | h | h | h | h <;> first | (cases h; rfl) | cases h
+  subst this
+  apply regular_of_admissible
+  · intro i j k cell depth hg
+    have : cell = Ex.cell := by
+      have : some (Ex.cell, (100 : ℝ)) = some (cell, depth) := hg
+      injection this with h; injection h with h1 _; exact h1.symm
+    subst this
+    exact Ex.dflt_admissible
+  · intro _; exact Ex.dflt_all.r0
+
+/-- CSKIN (`Connection::setSkinFactor`) keeps the relation, with any accumulated WPIMULT factor
+`m`, and keeps the stored denominator equal to `ln(r0/rw) + S` — which in turn holds after
+COMPDAT (`denom_consistent_after_compdat`). -/
+theorem cskin_preserves_identity (c : CTF ℝ) (S' m : ℝ) (hd : DenomConsistent c)
+    (hid : c.CF * (Real.log (c.r0 / c.rw) + c.skin) = m * (2 * Real.pi * c.Kh))
+    (hpd : c.denom - c.skin + S' ≠ 0) :
+    (setSkinFactor c S').CF * (Real.log ((setSkinFactor c S').r0 / (setSkinFactor c S').rw) + (setSkinFactor c S').skin)
+        = m * (2 * Real.pi * (setSkinFactor c S').Kh) ∧
+    DenomConsistent (setSkinFactor c S') :=
+  setSkinFactor_preserves c S' m hd hid hpd
+
+/-- After COMPDAT the stored `peaceman_denom` is `ln(r0/rw) + S`. -/
+theorem denom_consistent_after_compdat (inp : Input ℝ) (cell : Cell ℝ)
+    (hid : Identity (ctfOf realFns inp cell)) (hCF : 0 < (ctfOf realFns inp cell).CF) :
+    DenomConsistent (ctfOf realFns inp cell) :=
+  denomConsistent_of_identity inp cell hid hCF
+
+/-- Non-vacuity: the fully defaulted example record (relation holds, CF > 0); raising its skin
+from 1 to 3 keeps the denominator positive. -/
+example : Identity (ctfOf realFns Ex.dflt Ex.cell) ∧ 0 < (ctfOf realFns Ex.dflt Ex.cell).CF ∧
+    (ctfOf realFns Ex.dflt Ex.cell).denom - (ctfOf realFns Ex.dflt Ex.cell).skin + 3 ≠ 0 := by
+  refine ⟨peaceman_identity Ex.dflt Ex.cell Ex.dflt_admissible (fun _ => Ex.dflt_all.r0), Ex.dflt_stored_pos.1, ?_⟩
+  rw [ctfOf_neither _ _ Ex.dflt_all.kh Ex.dflt_all.cf, fin_denom]
+  have h := Ex.pd_pos Ex.dflt rfl rfl rfl rfl
+  have hs : (fin realFns Ex.dflt Ex.cell (2 * Real.pi * khCell realFns Ex.dflt Ex.cell / pdOf realFns Ex.dflt Ex.cell)
+      (khCell realFns Ex.dflt Ex.cell) (r0Used realFns Ex.dflt Ex.cell) (pdOf realFns Ex.dflt Ex.cell)).skin = 1 := rfl
+  rw [hs]
+  linarith
 
 end OpmVerif.Props.C06
